@@ -193,8 +193,11 @@ type X struct {
 	extraDepth int  // further recursive calls for the failure being raised right now (data dependent)
 }
 
+// (the quick tier gives one Check at most 250 000 invocations - a rare, very long minimisation is then inconclusive
+// there and judged in the thorough tier, which allows 1 500 000)
+var maxInvsPerCheck = 1500000
+
 const (
-	maxInvsPerCheck     = 1500000
 	maxAcceptedPerCheck = 30000
 	maxWallPerCheck     = 150 * time.Second
 )
